@@ -319,6 +319,56 @@ func init() {
 		r.crypto().files[strArg(a[0])] = a[1]
 		return Iface{}, actDone
 	})
+	// os.OpenFile / (*os.File).Write / Sync / Close over the same file table: O_TRUNC empties the file at open,
+	// O_APPEND writes at the end, otherwise writes start at offset 0 and OVERWRITE in place (what is beyond the
+	// written range stays). Like os.WriteFile in this model, opening for writing does not fail (file system faults are outside).
+	reg("os.OpenFile", func(r *Run, g *G, a []Value) (Value, action) {
+		name, flag := strArg(a[0]), intArg(a[1])
+		cs := r.crypto()
+		old, exists := cs.files[name]
+		if !exists && flag&0x40 == 0 { // O_CREAT
+			return Tuple{Ptr(nil), r.codecError()}, actDone
+		}
+		if !exists || flag&0x200 != 0 { // O_TRUNC
+			cs.files[name] = Slice{a: []Value{}, ln: int64(0), cp: int64(0)}
+			old = cs.files[name]
+		}
+		off := int64(0)
+		if flag&0x400 != 0 { // O_APPEND
+			n, _ := r.concreteIndex(g, old.(Slice).ln, r.curPosPrev(g))
+			off = n
+		}
+		p := new(Value)
+		*p = Opaque{kind: "os.File", id: r.nextOpaque()}
+		r.attach[Ptr(p)] = Tuple{name, off}
+		return Tuple{Ptr(p), Iface{}}, actDone
+	})
+	reg("(*os.File).Write", func(r *Run, g *G, a []Value) (Value, action) {
+		p, _ := a[0].(Ptr)
+		st, ok := r.attach[p].(Tuple)
+		if p == nil || !ok {
+			return Tuple{int64(0), r.codecError()}, actDone
+		}
+		name, off := st[0].(string), st[1].(int64)
+		cs := r.crypto()
+		cur := cs.files[name].(Slice)
+		curLen, _ := r.concreteIndex(g, cur.ln, r.curPosPrev(g))
+		data := a[1].(Slice)
+		dataLen, _ := r.concreteIndex(g, data.ln, r.curPosPrev(g))
+		cells := append([]Value{}, cur.a[:curLen]...)
+		for i := int64(0); i < dataLen; i++ {
+			if off+i < int64(len(cells)) {
+				cells[off+i] = copyVal(data.a[i])
+			} else {
+				cells = append(cells, copyVal(data.a[i]))
+			}
+		}
+		cs.files[name] = Slice{a: nonNil(cells), ln: int64(len(cells)), cp: int64(len(cells))}
+		r.attach[p] = Tuple{name, off + dataLen}
+		return Tuple{dataLen, Iface{}}, actDone
+	})
+	reg("(*os.File).Sync", func(r *Run, g *G, a []Value) (Value, action) { return Iface{}, actDone })
+	reg("(*os.File).Close", func(r *Run, g *G, a []Value) (Value, action) { return Iface{}, actDone })
 	// ideal codec exposed to harness-level models (GOB wallet)
 	reg(vrt+"IdealEncode", func(r *Run, g *G, a []Value) (Value, action) {
 		iv := a[0].(Iface)
